@@ -1,7 +1,9 @@
 /-
 M3 — the schema table: one `Schema` per Struct class of /repo, transcribed by hand from its read()/write() pair
 (file and lines in the comment of each entry).  Stage 2 covers the message envelope (messages.py, contents.py)
-and the payloads of Activate, Destroy, Revoke, MAC and DiscoverVersions; the other classes are exercised on the
+the payloads of Activate, Destroy, Revoke, MAC, DiscoverVersions, Get, GetAttributeList (request),
+GetAttributes, Create, and the structures TemplateAttribute, Credential, UsernamePasswordCredential, Name,
+EncryptionKeyInformation, KeyWrappingSpecification; the other classes are exercised on the
 implementation only (C01 structure monitors) and listed as not-in-table in the evidence.
 
 Deviations of the code that a flat field list cannot express are noted at the entry:
@@ -123,7 +125,68 @@ def discoverVersionsRequest : Schema := ⟨"DiscoverVersionsRequestPayload", 0x4
 def discoverVersionsResponse : Schema := ⟨"DiscoverVersionsResponsePayload", 0x42007C, [
   { tag := 0x420069, kind := .struct, card := .many }]⟩
 
+/-- payloads/get.py GetRequestPayload l.157-216 -/
+def getRequest : Schema := ⟨"GetRequestPayload", 0x420079, [
+  { tag := 0x420094, kind := tText, card := .opt },
+  { tag := 0x420042, kind := tEnum, card := .opt },                    -- key format type
+  { tag := 0x420041, kind := tEnum, card := .opt },                    -- key compression type
+  { tag := 0x420047, kind := .struct, card := .opt }]⟩                 -- key wrapping specification
+
+/-- payloads/get_attribute_list.py request l.73-103 -/
+def getAttributeListRequest : Schema := ⟨"GetAttributeListRequestPayload", 0x420079, [
+  { tag := 0x420094, kind := tText, card := .opt }]⟩
+
+/-- payloads/get_attributes.py request l.115-190: attribute names below 2.0, attribute references from 2.0 -/
+def getAttributesRequest : Schema := ⟨"GetAttributesRequestPayload", 0x420079, [
+  { tag := 0x420094, kind := tText, card := .opt },
+  { tag := 0x42000A, kind := tText, card := .many, vmax := 14 },
+  { tag := 0x42013B, kind := .enumOrStruct, card := .many, vmin := 20 }]⟩
+
+/-- payloads/get_attributes.py response l.347-399 -/
+def getAttributesResponse : Schema := ⟨"GetAttributesResponsePayload", 0x42007C, [
+  { tag := 0x420094, kind := tText, card := .one },
+  { tag := 0x420008, kind := .struct, card := .many, vmax := 14 },     -- Attribute*
+  { tag := 0x420125, kind := .struct, card := .one, vmin := 20 }]⟩     -- Attributes
+
+/-- payloads/create.py request l.126-206, response l.412-468 -/
+def createRequest : Schema := ⟨"CreateRequestPayload", 0x420079, [
+  { tag := 0x420057, kind := tEnum, card := .one },                    -- object type
+  { tag := 0x420091, kind := .struct, card := .one, vmax := 14 },      -- template attribute
+  { tag := 0x420125, kind := .struct, card := .one, vmin := 20 },      -- attributes
+  { tag := 0x42015F, kind := .struct, card := .opt, vmin := 20 }]⟩     -- protection storage masks
+def createResponse : Schema := ⟨"CreateResponsePayload", 0x42007C, [
+  { tag := 0x420057, kind := tEnum, card := .one },
+  { tag := 0x420094, kind := tText, card := .one },
+  { tag := 0x420091, kind := .struct, card := .opt, vmax := 14 }]⟩
+
+/-- objects.py TemplateAttribute, Credential, UsernamePasswordCredential, EncryptionKeyInformation,
+KeyWrappingSpecification; attributes.py Name -/
+def templateAttribute : Schema := ⟨"TemplateAttribute", 0x420091, [
+  { tag := 0x420053, kind := .struct, card := .many },                 -- Name*
+  { tag := 0x420008, kind := .struct, card := .many }]⟩                -- Attribute*
+def credential : Schema := ⟨"Credential", 0x420023, [
+  { tag := 0x420024, kind := tEnum, card := .one },
+  { tag := 0x420025, kind := .struct, card := .one }]⟩
+def usernamePasswordCredential : Schema := ⟨"UsernamePasswordCredential", 0x420025, [
+  { tag := 0x420099, kind := tText, card := .one },
+  { tag := 0x4200A1, kind := tText, card := .opt }]⟩
+def name : Schema := ⟨"Name", 0x420053, [
+  { tag := 0x420055, kind := tText, card := .one },
+  { tag := 0x420054, kind := tEnum, card := .one }]⟩
+def encryptionKeyInformation : Schema := ⟨"EncryptionKeyInformation", 0x420036, [
+  { tag := 0x420094, kind := tText, card := .one },
+  { tag := 0x42002B, kind := .struct, card := .opt }]⟩
+def keyWrappingSpecification : Schema := ⟨"KeyWrappingSpecification", 0x420047, [
+  { tag := 0x42009E, kind := tEnum, card := .one },                    -- wrapping method
+  { tag := 0x420036, kind := .struct, card := .opt },                  -- encryption key information
+  { tag := 0x42004E, kind := .struct, card := .opt },                  -- MAC/signature key information
+  { tag := 0x42000A, kind := tText, card := .many },                   -- attribute names
+  { tag := 0x4200A3, kind := tEnum, card := .opt }]⟩                   -- encoding option
+
 def schemas : List Schema := [
+  getRequest, getAttributeListRequest, getAttributesRequest, getAttributesResponse, createRequest, createResponse,
+  templateAttribute, credential, usernamePasswordCredential, name, encryptionKeyInformation,
+  keyWrappingSpecification,
   protocolVersion, requestHeader, responseHeader, requestBatchItem, responseBatchItem, requestMessage,
   responseMessage, authentication, activateRequest, activateResponse, destroyRequest, destroyResponse,
   revokeRequest, revokeResponse, revocationReason, macRequest, macResponse, discoverVersionsRequest,
